@@ -4,4 +4,5 @@ import DnsVerif.Props.C13
 #print axioms DnsVerif.Props.C13.serve_v2_never_panics_partial
 #print axioms DnsVerif.Props.C13.findGo_never_panics
 #print axioms DnsVerif.Props.C13.serve_v2_can_panic_on_malformed_store
+#print axioms DnsVerif.Props.C13.serve_v2_can_panic_on_overlong_label
 #print axioms DnsVerif.Props.C13.reply_shape
